@@ -53,6 +53,8 @@ impl PreloadUnverifiedBlocksChannel {
     fn preload_unverified_channel(&self, task: LonelyBlockHash) {
         let block_number = task.block_number_and_hash.number();
         let block_hash = task.block_number_and_hash.hash();
+        #[cfg(ckb_verif)]
+        ckb_util::verif::point("chain::before_preload");
         let unverified_block: UnverifiedBlock = self.load_full_unverified_block_by_hash(task);
 
         if let Some(metrics) = ckb_metrics::handle() {
